@@ -2,6 +2,49 @@
 //! map (offset, width, kind) for structure-aware mutation.
 
 use crate::leb;
+use std::cell::Cell;
+
+thread_local! {
+    static FIELD_COUNTER: Cell<u64> = const { Cell::new(0) };
+    static MUT1: Cell<Option<(u64, u64)>> = const { Cell::new(None) };
+    static MUT2: Cell<Option<(u64, u64)>> = const { Cell::new(None) };
+}
+
+/// Run a (deterministic) generator with up to two numeric fields overridden:
+/// the k-th numeric field emitted through any `Enc` on this thread gets the
+/// given value instead of the generator's. Enclosing lengths are computed from
+/// the emitted bytes, so they stay consistent. Returns the generator's result
+/// and the number of numeric fields it emitted.
+pub fn with_mutation<T>(m1: Option<(u64, u64)>, m2: Option<(u64, u64)>, f: impl FnOnce() -> T) -> (T, u64) {
+    FIELD_COUNTER.with(|c| c.set(0));
+    MUT1.with(|m| m.set(m1));
+    MUT2.with(|m| m.set(m2));
+    let r = f();
+    MUT1.with(|m| m.set(None));
+    MUT2.with(|m| m.set(None));
+    let n = FIELD_COUNTER.with(|c| c.get());
+    (r, n)
+}
+
+#[inline]
+fn hook(v: u64) -> u64 {
+    let k = FIELD_COUNTER.with(|c| {
+        let k = c.get();
+        c.set(k + 1);
+        k
+    });
+    if let Some((i, nv)) = MUT1.with(|m| m.get()) {
+        if i == k {
+            return nv;
+        }
+    }
+    if let Some((i, nv)) = MUT2.with(|m| m.get()) {
+        if i == k {
+            return nv;
+        }
+    }
+    v
+}
 
 #[derive(Clone, Copy, Debug, PartialEq, Eq)]
 pub enum FieldKind {
@@ -49,11 +92,13 @@ impl Enc {
         }
     }
     pub fn u8(&mut self, v: u8) -> &mut Self {
+        let v = hook(v as u64) as u8;
         self.f(1, FieldKind::U8, "");
         self.buf.push(v);
         self
     }
     pub fn uint(&mut self, v: u64, n: usize) -> &mut Self {
+        let v = hook(v);
         let k = match n {
             1 => FieldKind::U8,
             2 => FieldKind::U16,
@@ -86,24 +131,28 @@ impl Enc {
         self.uint(v, 8)
     }
     pub fn uleb(&mut self, v: u64) -> &mut Self {
+        let v = hook(v);
         let n = leb::uleb_len(v);
         self.f(n, FieldKind::Uleb, "");
         leb::enc_uleb(v, &mut self.buf);
         self
     }
     pub fn sleb(&mut self, v: i64) -> &mut Self {
+        let v = hook(v as u64) as i64;
         let n = leb::sleb_len(v);
         self.f(n, FieldKind::Sleb, "");
         leb::enc_sleb(v, &mut self.buf);
         self
     }
     pub fn addr(&mut self, v: u64, size: u8) -> &mut Self {
+        let v = hook(v);
         self.f(size as usize, FieldKind::Addr, "");
         self.raw_uint(v, size as usize);
         self
     }
     /// Section offset: 4 bytes in the 32-bit format, 8 in the 64-bit one.
     pub fn offset(&mut self, v: u64, fmt64: bool) -> &mut Self {
+        let v = hook(v);
         let n = if fmt64 { 8 } else { 4 };
         self.f(n, FieldKind::Offset, "");
         self.raw_uint(v, n);
@@ -123,13 +172,14 @@ impl Enc {
     /// Emit an initial-length field for `body`, then the body.
     pub fn with_length(&mut self, fmt64: bool, body: &Enc) -> &mut Self {
         let base;
+        let l = hook(body.buf.len() as u64);
         if fmt64 {
             self.f(12, FieldKind::Length, "");
             self.raw_uint(0xffff_ffff, 4);
-            self.raw_uint(body.buf.len() as u64, 8);
+            self.raw_uint(l, 8);
         } else {
             self.f(4, FieldKind::Length, "");
-            self.raw_uint(body.buf.len() as u64, 4);
+            self.raw_uint(l, 4);
         }
         base = self.buf.len();
         self.buf.extend_from_slice(&body.buf);
